@@ -64,7 +64,11 @@ func genC14(rt *rapid.T) CaseC14 {
 		} else {
 			t.Name = rapid.OneOf(rapid.SampledFrom(c14Names), rapid.SampledFrom(c14Names), rapid.StringMatching(`[a-zA-Z0-9._/ -]{0,12}`), genPathName(), genPathName()).Draw(rt, "name")
 		}
-		switch rapid.IntRange(0, 4).Draw(rt, "listkind") {
+		switch rapid.IntRange(0, 6).Draw(rt, "listkind") {
+		case 5:
+			t.List = []int{0, 1, 0} // an id listed twice (e.g. the creator appended to a list that already names it)
+		case 6:
+			t.List = []int{2, 1, 2, 0, 1}
 		case 0:
 			t.List = []int{}
 		case 1:
@@ -115,6 +119,7 @@ func execC14(c CaseC14) *Outcome {
 		}
 		return &accesscontroller.CreateAccessControllerOptions{Access: map[string][]string{"write": w.WriteList(t.List)}}
 	}
+	sharedOpts := &orbitdb.CreateDBOptions{Replicate: &no}
 	type made struct {
 		t    TupleC14
 		name string
@@ -236,7 +241,8 @@ func execC14(c CaseC14) *Outcome {
 		} else if opened = append(opened, s2); s2.Address().String() != addrA.String() {
 			return fail("Create(%q) with overwrite returned another address", name)
 		}
-		sb, err := w.Peers[1].DB.Open(ctx, addrA.String(), &orbitdb.CreateDBOptions{Replicate: &no})
+		// callers commonly reuse one options value for several opens: peer 1 does
+		sb, err := w.Peers[1].DB.Open(ctx, addrA.String(), sharedOpts)
 		if err != nil {
 			return fail("Open(%s) on another peer failed: %v", addrA, err)
 		}
@@ -301,10 +307,10 @@ func FuzzC14Name(f *testing.F) {
 			t.Skip()
 		}
 		types := []string{"eventlog", "keyvalue", "docstore"}
-		lists := [][]int{{}, {-1}, {0}, {0, 1}, {1, 2}}
+		lists := [][]int{{}, {-1}, {0}, {0, 1}, {1, 2}, {0, 1, 0}}
 		c := CaseC14{Tuples: []TupleC14{
 			{Name: "db", Type: "eventlog", List: []int{0, 1}},
-			{Name: name, Type: types[int(sel)%3], List: lists[int(sel/3)%5]},
+			{Name: name, Type: types[int(sel)%3], List: lists[int(sel/3)%6]},
 		}}
 		fuzzOne(t, "C14", "TestC14", c, execC14)
 	})
